@@ -36,6 +36,15 @@ pub fn check_history(h: &Hist) -> Result<(bool, Vec<&'static str>), Failure> {
         let e = &ev.expect;
         let seg = &ev.seg;
         let around = Some((seg.start.saturating_sub(2), (seg.end + 4).min(h.log.len())));
+        // the check ran to its result, yet the library never asked the environment something the responses required
+        if seg.result_at.is_some() && !e.missing.is_empty() && !e.poll_ambiguous {
+            return Err(failure(
+                "path-diverged",
+                format!("the check delivered a result without ever calling {}: announced states {:?}", e.missing.join(", "), seg_states(h, seg)),
+                h,
+                around,
+            ));
+        }
         if e.poll_ambiguous || !e.complete {
             classes.push("incomplete_or_ambiguous_check");
             continue;
